@@ -52,6 +52,10 @@ def finish_t(rep, results, step_kind="step"):
         verd = {}
         for vd in r["verdicts"]:
             verd[vd["verdict"]] = verd.get(vd["verdict"], 0) + 1
+            if vd["verdict"] == "violation" and vd["kind"] == "residue-only" and r["spec"].get("faults"):
+                # a temp / marker file left behind by a call that was hit by an injected fault: counted, not judged
+                cov["residue_after_faulted_calls"] = cov.get("residue_after_faulted_calls", 0) + 1
+                continue
             if vd["verdict"] == "violation":
                 sig = tscen.sig_of(r["spec"], vd)
                 rep.violation(sig, {"spec": r["spec"], "schedule": vd["schedule"], "terminal": vd["terminal"],
